@@ -376,6 +376,10 @@ Definition is_point_of (o : oracle) (b : bytes) : bool :=
 Definition url_parse_of (u : url_oracle) (s : bytes) : res bytes :=
   match lookup u s with Some v => v | None => Err 99 end.
 
+(* no entry of the table says that url::Url::parse panicked *)
+Definition url_table_total (u : url_oracle) : bool :=
+  forallb (fun kv => negb (is_panic (snd kv))) u.
+
 Definition flag (b : bool) : res bytes := Ok [if b then 1 else 0].
 
 Definition pk_obs (k : bytes) : list (res bytes) :=
@@ -459,7 +463,7 @@ Definition outv_eqb (a b : outv) : bool :=
 Definition wf_cab (c : cab) : bool :=
   match c with
   | Inline s d => (s <=? 30) && (length d =? 30)%nat && bytes_ok d && forallb (N.eqb 0) (skipn (N.to_nat s) d)
-  | Heap d => (30 <? length d)%nat && bytes_ok d
+  | Heap d => (30 <? length d)%nat && bytes_ok d && (len d <=? U64_MAX)   (* a length is a usize *)
   end.
 Definition wf_custom (c : custom) : bool := (cid c <=? U64_MAX) && wf_cab (cdata c).
 Definition wf_sock (a : sockaddr) : bool :=
@@ -469,7 +473,7 @@ Definition wf_sock (a : sockaddr) : bool :=
   end.
 Definition wf_taddr (up : bytes -> res bytes) (a : taddr) : bool :=
   match a with
-  | Relay u => bytes_ok u && rb_eqb (up u) (Ok u)     (* a serialised Url parses to itself *)
+  | Relay u => bytes_ok u && (len u <=? U64_MAX) && rb_eqb (up u) (Ok u)     (* a serialised Url parses to itself *)
   | Ip s => wf_sock s
   | Custom c => wf_custom c
   end.
@@ -483,7 +487,8 @@ Fixpoint ascending (prev : list taddr) (l : list taddr) : bool :=
 Definition wf_key (isp : bytes -> bool) (k : bytes) : bool :=
   (length k =? 32)%nat && bytes_ok k && isp k.
 Definition wf_eaddr (isp : bytes -> bool) (up : bytes -> res bytes) (e : eaddr) : bool :=
-  wf_key isp (eid e) && forallb (wf_taddr up) (eaddrs e) && ascending [] (eaddrs e).
+  wf_key isp (eid e) && forallb (wf_taddr up) (eaddrs e) && ascending [] (eaddrs e)
+  && (len (eaddrs e) <=? U64_MAX).
 
 (* the 32 bytes whose validity the model asks about: must be in the table *)
 Definition candidate (i : input) : option bytes :=
@@ -613,6 +618,9 @@ Definition monitor (i : input) (o : output) : bool :=
       | _ => false
       end
   | OpEaPostcard b =>
+      (* outside the quantifier: "bytes" that are not bytes, and a url table that records a
+         panic of url::Url itself (the harness never writes one: its entries are Ok / Err) *)
+      if negb (bytes_ok b && url_table_total urls) then true else
       match o with
       | Ok (OEa e' [Ok _]) => wf_key isp (eid e')     (* accepted: only a valid key, re-serialisable *)
       | Ok _ => false
